@@ -1211,7 +1211,9 @@ class Interp:
         elif k == "fieldx":
             name = self.ev(lv[1])
             if name is ABSENT:
-                return
+                # the maps page says absent keys skip the assignment; for the computed-field-name form the reference
+                # is silent (and the binary treats it as an error): outside the domain
+                raise Decline("absent computed field name on assignment")
             self.need_rec()[mapkey(name)] = dcopy(value)
         elif k == "posname":
             n = self._pos(lv)
@@ -1278,7 +1280,7 @@ class Interp:
         elif k == "fieldx":
             name = self.ev(lv[1])
             if name is ABSENT:
-                return
+                raise Decline("absent computed field name in unset")
             self.need_rec().pop(mapkey(name), None)
         elif k == "srec":
             self.need_rec().clear()
@@ -1335,6 +1337,8 @@ class Interp:
     def st_assign(self, s):
         v = self.ev(s[2])
         self.bump("assign")
+        if s[1][0] == "index" and len(s[1][2]) >= 2 and (is_map(v) or is_arr(v)) and _mentions(s[2], s[1][1]):
+            self.feats.add("indexed-assign-rhs-mentions-own-base")
         self.assign(s[1], v)
 
     def lv_read(self, lv):
@@ -1649,7 +1653,8 @@ class Interp:
 
     def st_emit1(self, s):
         self.bump("emit1")
-        if s[1][0] in ("local", "oos", "index"):
+        if s[1][0] in ("local", "oos", "index", "bcall", "ucall", "lcall"):
+            # a variable, or a function value that may be (a reference to) its argument, e.g. mapsum(@m) with one argument
             self.feats.add("emit1-of-variable")
         v = self.ev(s[1])
         if not is_map(v):
@@ -1859,6 +1864,14 @@ class Interp:
         if self.linebuf is not None:
             raise Decline("output ends inside a printn line")
         return self.out
+
+
+def _mentions(e, base):
+    if isinstance(e, tuple) and len(e) == len(base) and e == base:
+        return True
+    if isinstance(e, (tuple, list)):
+        return any(_mentions(x, base) for x in e)
+    return False
 
 
 def canon_or_none(v):
